@@ -566,11 +566,13 @@ pub fn parse_big(v: &serde_json::Value, field: &str) -> BigInt {
     s.parse::<BigInt>().unwrap_or_else(|_| mc_core::machinery_error(&format!("replay field {field} is not an integer")))
 }
 
-/// Record a disagreement: deterministic informational counter per kind + a (capped) violation record.
-/// The cap keeps the number of stored records per worker bounded without touching the counts.
+/// Record a disagreement: a deterministic informational counter per kind, and one violation record per
+/// distinct key for the whole run (first occurrence wins), so that the number of recorded violations /
+/// known-finding hits does not depend on how the work was split over threads.
 pub fn report(l: &mut mc_core::Local, kind: &str, key: String, what: String, case: serde_json::Value) {
+    static SEEN: std::sync::Mutex<BTreeSet<String>> = std::sync::Mutex::new(BTreeSet::new());
     l.info(&format!("disagreements of kind {kind}"));
-    if l.violations.len() < 40 {
+    if SEEN.lock().unwrap().insert(key.clone()) {
         l.violation(key, what, case);
     }
 }
